@@ -93,3 +93,24 @@ for _hdr, _blk in (("bsd/sys/fcntl.h", O_FLAGS), ("bsd/sys/stat.h", S_FLAGS), ("
                    ("osfmk/kperf/thread_samplers.h", KPERF_TI), ("dlfcn.h", RTLD), ("bsd/sys/ioccom.h", IOC)):
     for _k in _blk:
         HEADER_OF[_k] = _hdr
+
+
+# ---------------------------------------------------------------------------------------------------------------------
+# firehose tracepoint identifiers (libdispatch: src/firehose/firehose_types_private.h, tracepoint_private.h), transcribed.
+# Flag values are those of the 16-bit `_firehose_tracepoint_flags_*` constants shifted down by 8 (the decoder cuts the upper
+# byte out of the identifier: firehose_tracepoint_id's `flags` field), as the repository's own tables have them.
+FIREHOSE = {
+    "FirehoseTracepointNamespace": {"activity": 2, "trace": 3, "log": 4, "metadata": 5, "signpost": 6, "loss": 7},
+    "FirehoseTracepointFlagsPcStyle": {"none": 0, "main_exe": 1, "shared_cache": 2, "main_plugin": 3, "absolute": 4,
+                                       "uuid_relative": 5, "large_shared_cache": 6},
+    "FirehoseTracepointActivityType": {"create": 1, "swap": 2, "useraction": 3},
+    "FirehoseTracepointTraceType": {"default": 0, "info": 1, "debug": 2, "error": 0x10, "fault": 0x11},
+    "FirehoseTracepointLogType": {"default": 0, "info": 1, "debug": 2, "error": 0x10, "fault": 0x11},
+    "FirehoseTracepointLogFlags": {"has_private_data": 1, "has_subsystem": 2, "has_rules": 4, "has_oversize": 8,
+                                   "has_context_data": 0x10},
+    "FirehoseTracepointMetadataType": {"dyld": 1, "subsystem": 2, "kext": 3},
+    "FirehoseTracepointSignpostType": {"event": 0, "interval_begin": 1, "interval_end": 2, "scope_thread": 0x40,
+                                       "scope_process": 0x80, "scope_system": 0xc0},
+    "FirehoseTracepointSingpostFlags": {"has_private_data": 1, "has_subsystem": 2, "has_rules": 4, "has_oversize": 8,
+                                        "has_context_data": 0x10, "has_name": 0x80},
+}
